@@ -146,6 +146,110 @@ func wakeNilBranch(p *packages.Package) string {
 	return res
 }
 
+// the RETRY loop of GetSubscriptionMessages.execute: does the assignment `pubAwaiter = PublishAwaiter(..)`
+// come before the first runTx call of the loop body, and which select cases loop again
+func pullLoopFacts(p *packages.Package) (registersFirst bool, cases []string) {
+	fd := funcDecl(p, "GetSubscriptionMessages", "execute")
+	if fd == nil {
+		problem("GetSubscriptionMessages.execute not found")
+		return
+	}
+	ast.Inspect(fd.Body, func(n ast.Node) bool {
+		ls, ok := n.(*ast.LabeledStmt)
+		if !ok || ls.Label.Name != "RETRY" {
+			return true
+		}
+		fs, ok := ls.Stmt.(*ast.ForStmt)
+		if !ok {
+			return true
+		}
+		reg, run := -1, -1
+		for i, st := range fs.Body.List {
+			if as, ok := st.(*ast.AssignStmt); ok && len(as.Lhs) == 1 && len(as.Rhs) == 1 && as.Tok == token.ASSIGN {
+				if id, ok := as.Lhs[0].(*ast.Ident); ok && id.Name == "pubAwaiter" {
+					if c, ok := as.Rhs[0].(*ast.CallExpr); ok && exprName(c.Fun) == "PublishAwaiter" && reg < 0 {
+						reg = i
+					}
+				}
+			}
+			hasRun := false
+			ast.Inspect(st, func(m ast.Node) bool {
+				if c, ok := m.(*ast.CallExpr); ok && exprName(c.Fun) == "runTx" {
+					hasRun = true
+				}
+				return true
+			})
+			if hasRun && run < 0 {
+				run = i
+			}
+			if sel, ok := st.(*ast.SelectStmt); ok {
+				for _, cl := range sel.Body.List {
+					cc := cl.(*ast.CommClause)
+					name := "default"
+					if es, ok := cc.Comm.(*ast.ExprStmt); ok {
+						if ue, ok := es.X.(*ast.UnaryExpr); ok {
+							name = exprName(ue.X)
+							if c, ok := ue.X.(*ast.CallExpr); ok {
+								name = exprName(c.Fun)
+							}
+						}
+					}
+					what := "other"
+					if len(cc.Body) > 0 {
+						switch b := cc.Body[len(cc.Body)-1].(type) {
+						case *ast.BranchStmt:
+							what = strings.ToLower(b.Tok.String())
+						case *ast.ReturnStmt:
+							what = "return"
+						}
+					}
+					cases = append(cases, name+":"+what)
+				}
+			}
+		}
+		registersFirst = reg >= 0 && run >= 0 && reg < run
+		return false
+	})
+	return
+}
+
+// every `case <-pubNotify:` of MessageStreamer.Go: does its body start by taking a new awaiter
+func streamerRenewals(p *packages.Package) []string {
+	fd := funcDecl(p, "MessageStreamer", "Go")
+	var res []string
+	if fd == nil {
+		problem("MessageStreamer.Go not found")
+		return res
+	}
+	ast.Inspect(fd.Body, func(n ast.Node) bool {
+		cc, ok := n.(*ast.CommClause)
+		if !ok || cc.Comm == nil {
+			return true
+		}
+		es, ok := cc.Comm.(*ast.ExprStmt)
+		if !ok {
+			return true
+		}
+		ue, ok := es.X.(*ast.UnaryExpr)
+		if !ok || exprName(ue.X) != "pubNotify" {
+			return true
+		}
+		r := "stale"
+		if len(cc.Body) > 0 {
+			if as, ok := cc.Body[0].(*ast.AssignStmt); ok && len(as.Lhs) == 1 && len(as.Rhs) == 1 {
+				if id, ok := as.Lhs[0].(*ast.Ident); ok && id.Name == "pubNotify" {
+					if c, ok := as.Rhs[0].(*ast.CallExpr); ok && exprName(c.Fun) == "PublishAwaiter" {
+						r = "renews"
+					}
+				}
+			}
+		}
+		res = append(res, r)
+		return true
+	})
+	return res
+}
+
 // HTTP status codes of the success arm of the push streamer's switch
 func pushSuccessCodes(p *packages.Package) []int64 {
 	fd := funcDecl(p, "httpPushStreamConn", "Send")
@@ -482,6 +586,17 @@ func main() {
 	emitIntConst(svc, "defaultDeadLetterMaxAttempts", "defaultDeadLetterMaxAttempts", "services.defaultDeadLetterMaxAttempts")
 
 	fmt.Fprintf(&out, "\n/-- what WakePublishListeners' loop does for a subscription without waiters -/\ndef wakeNilBranch : String := %s\n", leanStr(wakeNilBranch(act)))
+	q := func(ss []string) string {
+		o := make([]string, len(ss))
+		for i, s := range ss {
+			o[i] = leanStr(s)
+		}
+		return "[" + strings.Join(o, ", ") + "]"
+	}
+	regFirst, selCases := pullLoopFacts(act)
+	fmt.Fprintf(&out, "/-- in the RETRY loop of GetSubscriptionMessages.execute the awaiter is registered before the query transaction -/\ndef pullRegistersBeforeQuery : Bool := %v\n", regFirst)
+	fmt.Fprintf(&out, "/-- the cases of that loop's select and how each ends -/\ndef pullSelectCases : List String := %s\n", q(selCases))
+	fmt.Fprintf(&out, "/-- every `case <-pubNotify` of MessageStreamer.Go: does it take a new awaiter first -/\ndef streamerRenewals : List String := %s\n", q(streamerRenewals(act)))
 
 	out.WriteString("\n/-- List handler ↦ literal appended to the project to form the name prefix -/\n")
 	for _, h := range [][3]string{{"publisherServer", "ListTopics", "listTopicsSuffix"}, {"subscriberServer", "ListSubscriptions", "listSubscriptionsSuffix"}, {"subscriberServer", "ListSnapshots", "listSnapshotsSuffix"}} {
@@ -512,13 +627,6 @@ func main() {
 
 	un := interceptors(grpcp, "ChainUnaryInterceptor")
 	st := interceptors(grpcp, "ChainStreamInterceptor")
-	q := func(ss []string) string {
-		o := make([]string, len(ss))
-		for i, s := range ss {
-			o[i] = leanStr(s)
-		}
-		return "[" + strings.Join(o, ", ") + "]"
-	}
 	fmt.Fprintf(&out, "\n/-- production interceptor chains of grpc/server.go -/\ndef unaryInterceptors : List String := %s\ndef streamInterceptors : List String := %s\n", q(un), q(st))
 
 	var hooks []hook
